@@ -9,6 +9,10 @@
      N fsdec chdec                                      new speech-layer execution: fresh OpusDecoder
      S id fs ms nch seed | ops | vals                   one speech-layer packet (opus_decode: normal, FEC twin, PLC twin)
      A start end C LM total                             clt_compute_allocation reservations (encode side, probes)
+     E id LM C start end complexity seed lfe | len pre sig ...   a run of frames through the real MDCT-layer ENCODER (celt_encode_with_ec,
+                                                        pre one-bit symbols in front, exactly len bytes) and the real decoder
+     O id fs ch app bitrate fec loss dur2 mode seed n   a run of n packets through the real Opus encoder in the speech or hybrid mode
+                                                        (dur2 = packet duration in half ms, mode 1000/1001) and the real decoder
    ops are groups of four integers <<kind, p, q, v>>, see FrameHdr.tla.  */
 #ifdef HAVE_CONFIG_H
 #include "config.h"
@@ -27,8 +31,10 @@
 #include "quant_bands.h"
 #include "main.h"
 #include "tables.h"
+#include "cpu_support.h"
 
 extern int opus_verif_celt_decoder_peek(const CELTDecoder *st, int field);
+extern opus_int32 opus_verif_celt_encoder_peek(const CELTEncoder *st, int field);
 
 #define MAXOPS 4000
 #define MAXT 16
@@ -332,6 +338,112 @@ static void alloc_case(char *line)
    js_close();
 }
 
+/* ---- the real MDCT-layer encoder against the real decoder over starved budgets (encoder-side binding) ---- */
+#include <math.h>
+static void cenc_exec(char *line)
+{
+   char *s1 = next_section(line);
+   static int fr[3 * 64]; static unsigned char buf[1300]; static opus_res in[2 * 960], out[2 * 960];
+   int n, id, LM, C, start, end, cx, k, i, N, lfe; hx_rng r; CELTEncoder *ce; double ph = 0;
+   g_nhead = read_ints(line + 1, g_head, 16); n = read_ints(s1, fr, 3 * 64) / 3;
+   if (g_nhead < 7) { js_open("bad"); js_str("why", "head"); js_close(); return; }
+   id = g_head[0]; LM = g_head[1]; C = g_head[2]; start = g_head[3]; end = g_head[4]; cx = g_head[5]; r.s = (uint64_t)g_head[6]; lfe = g_nhead > 7 ? g_head[7] : 0;
+   if (LM < 0 || LM > 3 || C < 1 || C > 2 || (start != 0 && start != 17) || end > 21 || end <= start || cx < 0 || cx > 10 || lfe < 0 || lfe > 1 || (lfe && (C != 1 || start != 0))) { js_open("bad"); js_int("id", id); js_str("why", "args"); js_close(); return; }
+   for (k = 0; k < n; k++) if (fr[3 * k] < 2 || fr[3 * k] > 1275 || fr[3 * k + 1] < 0 || fr[3 * k + 1] > 8 * fr[3 * k] - 1 || (start == 0 && fr[3 * k + 1] != 0) || fr[3 * k + 2] < 0 || fr[3 * k + 2] > 4)
+      { js_open("bad"); js_int("id", id); js_str("why", "frames"); js_close(); return; }
+   N = 120 << LM;
+   ce = (CELTEncoder *)malloc(celt_encoder_get_size(2));
+   if (!ce || celt_encoder_init(ce, 48000, 2, opus_select_arch()) != OPUS_OK) { js_open("bad"); js_str("why", "encoder"); js_close(); free(ce); return; }
+   opus_custom_encoder_ctl(ce, CELT_SET_SIGNALLING(0));
+   opus_custom_encoder_ctl(ce, CELT_SET_CHANNELS(C)); opus_custom_encoder_ctl(ce, CELT_SET_START_BAND(start)); opus_custom_encoder_ctl(ce, CELT_SET_END_BAND(end));
+   opus_custom_encoder_ctl(ce, OPUS_SET_LFE(lfe));
+   opus_custom_encoder_ctl(ce, OPUS_SET_COMPLEXITY(cx)); opus_custom_encoder_ctl(ce, OPUS_SET_VBR(0)); opus_custom_encoder_ctl(ce, OPUS_SET_BITRATE(OPUS_BITRATE_MAX));
+   opus_custom_decoder_ctl(g_cdec, OPUS_RESET_STATE);
+   opus_custom_decoder_ctl(g_cdec, CELT_SET_CHANNELS(C)); opus_custom_decoder_ctl(g_cdec, CELT_SET_START_BAND(start)); opus_custom_decoder_ctl(g_cdec, CELT_SET_END_BAND(end));
+   for (k = 0; k < n; k++) {
+      int len = fr[3 * k], pre = fr[3 * k + 1], sig = fr[3 * k + 2], er, dr, ee; opus_uint32 erng = 0, drng = 0; ec_enc enc; ec_dec dec; unsigned char *d;
+      for (i = 0; i < N; i++) {
+         double a = 0, b = 0;
+         if (sig == 1) { a = hx_unit(&r) - 0.5; b = hx_unit(&r) - 0.5; }
+         else if (sig == 2) { ph += 2 * 3.14159265358979 * 220.0 / 48000; a = 0.3 * sin(ph) + 0.15 * sin(2 * ph) + 0.1 * sin(3 * ph + 1) + 0.002 * (hx_unit(&r) - 0.5); b = 0.9 * a; }
+         else if (sig == 3) { a = (i == N / 2 || i == N / 2 + 1) ? 0.9 : 0.001 * (hx_unit(&r) - 0.5); b = -a; }
+         else if (sig == 4) { a = 0.0005 * (hx_unit(&r) - 0.5); b = 0.0005 * (hx_unit(&r) - 0.5); }
+         in[2 * i] = (opus_res)a; in[2 * i + 1] = (opus_res)b;
+      }
+      memset(buf, 0, sizeof buf);
+      ec_enc_init(&enc, buf, len);
+      for (i = 0; i < pre; i++) ec_enc_bit_logp(&enc, 0, 1);
+      hx_arm(20);
+      er = celt_encode_with_ec(ce, in, N, NULL, len, &enc);
+      hx_disarm();
+      ee = ec_get_error(&enc);
+      opus_custom_encoder_ctl(ce, OPUS_GET_FINAL_RANGE(&erng));
+      d = hx_exact(buf, len);
+      ec_dec_init(&dec, d, len);
+      for (i = 0; i < pre; i++) (void)ec_dec_bit_logp(&dec, 1);
+      hx_arm(20);
+      dr = celt_decode_with_ec(g_cdec, d, len, out, N, &dec, 0);
+      hx_disarm();
+      opus_custom_decoder_ctl(g_cdec, OPUS_GET_FINAL_RANGE(&drng));
+      free(d);
+      js_open("cenc"); js_int("id", id); js_int("f", k); js_int("len", len); js_int("LM", LM); js_int("C", C); js_int("s", start); js_int("e", end);
+      js_int("pre", pre); js_int("sig", sig); js_int("cx", cx); js_int("lfe", lfe); js_int("er", er); js_int("ee", ee); js_halves("eh", "el", erng);
+      js_int("dr", dr); js_halves("rh", "rl", drng); js_int("pe", opus_verif_celt_encoder_peek(ce, 5)); js_int("pp", opus_verif_celt_decoder_peek(g_cdec, 2));
+      js_int("b0", buf[0]); js_int("b1", buf[1]);
+      js_close();
+   }
+   free(ce);
+}
+
+/* ---- the real Opus encoder in the speech / hybrid mode (with in-band FEC) against the real decoder ---- */
+static void opus_exec(char *line)
+{
+   int a[11], n = read_ints(line + 1, a, 11), id, fs, ch, app, br, fec, loss, dur2, mode, np, k, i, err = 0, frame;
+   static float in[2 * 2880]; static opus_int16 out[2 * 5760]; static unsigned char pkt[1500];
+   OpusEncoder *oe; OpusDecoder *od; hx_rng r; double ph = 0, env = 0;
+   if (n < 11) { js_open("bad"); js_str("why", "head"); js_close(); return; }
+   id = a[0]; fs = a[1]; ch = a[2]; app = a[3]; br = a[4]; fec = a[5]; loss = a[6]; dur2 = a[7]; mode = a[8]; r.s = (uint64_t)a[9]; np = a[10];
+   if (!(fs == 8000 || fs == 12000 || fs == 16000 || fs == 24000 || fs == 48000) || ch < 1 || ch > 2 || (app != 2048 && app != 2049) || br < 6000 || br > 200000 ||
+       fec < 0 || fec > 1 || loss < 0 || loss > 100 || !(dur2 == 20 || dur2 == 40 || dur2 == 80 || dur2 == 120) || (mode != MODE_SILK_ONLY && mode != MODE_HYBRID) ||
+       (mode == MODE_HYBRID && (fs < 24000 || dur2 > 40)) || np < 1 || np > 200) { js_open("bad"); js_int("id", id); js_str("why", "args"); js_close(); return; }
+   frame = fs / 2000 * dur2;
+   oe = opus_encoder_create(fs, ch, app, &err); od = opus_decoder_create(fs, ch, &err);
+   if (!oe || !od) { js_open("bad"); js_str("why", "create"); js_close(); return; }
+   opus_encoder_ctl(oe, OPUS_SET_BITRATE(br)); opus_encoder_ctl(oe, OPUS_SET_INBAND_FEC(fec)); opus_encoder_ctl(oe, OPUS_SET_PACKET_LOSS_PERC(loss));
+   opus_encoder_ctl(oe, OPUS_SET_FORCE_MODE(mode));
+   if (mode == MODE_SILK_ONLY) opus_encoder_ctl(oe, OPUS_SET_MAX_BANDWIDTH(OPUS_BANDWIDTH_WIDEBAND));
+   else opus_encoder_ctl(oe, OPUS_SET_BANDWIDTH(hx_u(&r, 2) ? OPUS_BANDWIDTH_FULLBAND : OPUS_BANDWIDTH_SUPERWIDEBAND));
+   for (k = 0; k < np; k++) {
+      int len, dr, lb; opus_uint32 erng = 0, drng = 0; unsigned char *d;
+      int active = (k % 7) != 5, sidey = (k % 5) != 3;            /* pauses (no voice activity) and stretches without side signal */
+      for (i = 0; i < frame; i++) {
+         double v, w;
+         env = 0.999 * env + 0.001 * (active ? 0.5 + 0.4 * sin(k * 1.3) : 0.0);
+         ph += 2 * 3.14159265358979 * (140.0 + 20 * sin(k * 0.37)) / fs;
+         v = env * (0.5 * sin(ph) + 0.25 * sin(2 * ph + 0.5) + 0.15 * sin(3 * ph + 1) + 0.1 * sin(5 * ph)) + 0.003 * (hx_unit(&r) - 0.5);
+         w = sidey ? env * 0.3 * sin(1.7 * ph + 0.3) + 0.003 * (hx_unit(&r) - 0.5) : 0.0;
+         if (ch == 2) { in[2 * i] = (float)(v + w); in[2 * i + 1] = (float)(v - w); } else in[i] = (float)v;
+      }
+      hx_arm(30);
+      len = opus_encode_float(oe, in, frame, pkt, 1275);
+      opus_encoder_ctl(oe, OPUS_GET_FINAL_RANGE(&erng));
+      hx_disarm();
+      if (len <= 0) { js_open("openc"); js_int("id", id); js_int("f", k); js_int("er", len); js_int("dr", 0); js_int("n", 0); js_close(); continue; }
+      d = hx_exact(pkt, len);
+      lb = opus_packet_has_lbrr(d, len);
+      hx_arm(30);
+      dr = opus_decode(od, d, len, out, 5760, 0);
+      opus_decoder_ctl(od, OPUS_GET_FINAL_RANGE(&drng));
+      hx_disarm();
+      js_open("openc"); js_int("id", id); js_int("f", k); js_int("fs", fs); js_int("ch", ch); js_int("dur2", dur2); js_int("mode", mode); js_int("fec", fec);
+      js_int("er", len); js_int("n", len); js_int("toc", d[0]); js_int("b0", len > 1 ? d[1] : 0); js_int("lb", lb);
+      js_halves("eh", "el", erng); js_int("dr", dr); js_halves("rh", "rl", drng); js_int("frame", frame);
+      js_close();
+      free(d);
+   }
+   opus_encoder_destroy(oe); opus_decoder_destroy(od);
+}
+
 int main(int argc, char **argv)
 {
    static char line[1 << 18];
@@ -351,6 +463,8 @@ int main(int argc, char **argv)
       else if (line[0] == 'N') silk_new(line);
       else if (line[0] == 'S') silk_case(line);
       else if (line[0] == 'A') alloc_case(line);
+      else if (line[0] == 'E') cenc_exec(line);
+      else if (line[0] == 'O') opus_exec(line);
       fflush(stdout);
    }
    return 0;
